@@ -16,10 +16,56 @@ def seeded_as_mutants(prop):
     """kept sub-agent changes of a property, as (id, patch path) pairs"""
     import glob
     out = []
-    for d in sorted(glob.glob(os.path.join(VERIF, "seeded", "%s-m*" % prop))):
-        if os.path.exists(os.path.join(d, "patch.diff")):
+    for d in sorted(glob.glob(os.path.join(VERIF, "seeded", "C*-m*"))):
+        try:
+            owner = json.load(open(os.path.join(d, "meta.json"))).get("property")
+        except Exception:
+            owner = os.path.basename(d)[:3]
+        if owner == prop and os.path.exists(os.path.join(d, "patch.diff")):
             out.append((os.path.basename(d), os.path.join(d, "patch.diff")))
     return out
+
+
+def refactor_battery(prop, files_analysed=None, limit=None):
+    """-> [(id, SILENT|ALARM|STALE|SKIPPED, detail)]: every kept behaviour-preserving refactoring (seeded/refactors) that
+    touches a file this property's rules read, applied alone to a scratch copy of /repo's sources; the check must stay
+    silent. An alarm here says something about the checker (a rule keyed to syntax), never about aiken."""
+    import glob, re
+    pats = sorted(glob.glob(os.path.join(VERIF, "seeded", "refactors", "*", "patch.diff")))
+    files_analysed = set(files_analysed or [])
+    todo = []
+    for p in pats:
+        touched = set(re.findall(r"^\+\+\+ b/(\S+)", open(p).read(), re.M))
+        if files_analysed and not (touched & files_analysed):
+            continue
+        todo.append((os.path.basename(os.path.dirname(p)), p))
+    if limit:
+        todo = todo[:limit]
+    if not todo:
+        return []
+    scratch = tempfile.mkdtemp(prefix="verif-refactor-")
+    res = []
+    try:
+        root = os.path.join(scratch, "repo")
+        os.makedirs(root)
+        subprocess.run(["rsync", "-a", "--exclude", "target", "--exclude", ".git", "--exclude", "test_data", "/repo/crates", "/repo/Cargo.toml", "/repo/Cargo.lock", "/repo/examples", root + "/"], check=True)
+        env = dict(os.environ, VERIF_REPO=root, VERIF_EVIDENCE_DIR=os.path.join(scratch, "evidence"), VERIF_CACHE=os.path.join(scratch, "cache"), VERIF_FLOW_TARGET=os.path.join(VERIF, ".cache", "flow-target"), VERIF_TIER="quick", VERIF_NO_BATTERY="1")
+        for rid, patch in todo:
+            r0 = subprocess.run(["patch", "-p1", "-s", "-F0", "-i", patch], cwd=root, capture_output=True, text=True)
+            if r0.returncode != 0:
+                res.append((rid, "STALE", "patch no longer applies"))
+                subprocess.run("find . -name '*.rej' -delete -o -name '*.orig' -delete", shell=True, cwd=root)
+                subprocess.run(["rsync", "-a", "--delete", "--exclude", "target", "--exclude", ".git", "--exclude", "test_data", "/repo/crates", root + "/"], check=False)
+                continue
+            try:
+                r = subprocess.run([os.path.join(VERIF, "check"), prop], capture_output=True, text=True, env=env, cwd=VERIF)
+            finally:
+                subprocess.run(["patch", "-p1", "-R", "-s", "-i", patch], cwd=root, capture_output=True, text=True)
+            fired = [l for l in r.stdout.splitlines() if l.startswith("FAIL ")]
+            res.append((rid, "ALARM" if (r.returncode != 0 or fired) else "SILENT", fired[0][:160] if fired else ""))
+    finally:
+        shutil.rmtree(scratch, ignore_errors=True)
+    return res
 
 
 def battery(prop, only=None, include_seeded=True, keep=False):
